@@ -202,6 +202,7 @@ func (w *W) typ(t *meta.Type, depth int) interface{} {
 		union = append(union, w.typ(u, depth+1))
 	}
 	out["union"] = union
+	out["union-formats"] = fmt.Sprint(t.UnionFormats())
 	w.try("type.resolve", func() {
 		if r := t.Resolve(); r != nil && r != t {
 			out["resolved"] = w.typ(r, depth+1)
